@@ -1,0 +1,26 @@
+//go:build verif
+
+package autocert
+
+import (
+	"testing"
+	"time"
+
+	"golang.org/x/crypto/acme/autocert/internal/acmetest"
+)
+
+// VerifRenewalNext evaluates domainRenewal.next for manager m.
+func VerifRenewalNext(m *Manager, notBefore, notAfter time.Time) time.Duration {
+	dr := &domainRenewal{m: m}
+	return dr.next(notBefore, notAfter)
+}
+
+// VerifSetNow sets the manager's clock (nowFunc).
+func VerifSetNow(m *Manager, now func() time.Time) { m.nowFunc = now }
+
+// VerifCAServer re-exports the repository's fake ACME CA (test infrastructure
+// that lives in an internal package the harness cannot import).
+type VerifCAServer = acmetest.CAServer
+
+// VerifNewCAServer returns a new, not yet started, fake CA.
+func VerifNewCAServer(t *testing.T) *VerifCAServer { return acmetest.NewCAServer(t) }
